@@ -298,10 +298,29 @@ def g_body(r, depth, ind):
 	return out
 
 
+def g_container_function(r, i):
+	"""an enum whose members are defined by operator expressions, used under tighter-binding operators; fill lists (annotated and not), a
+	comprehension, len, non-negative constant indices, a for-each loop"""
+	k1, k2, m1, m2 = r.randint(1, 3), r.randint(1, 3), r.randint(5, 12), r.randint(1, 4)
+	lines = ['from enum import Enum', '', '', f'class Perm{i}(Enum):', '\tREAD = 1', f'\tWRITE = 1 << {k1}', f'\tEXEC = 1 << {k2}', f'\tBASE = {m1} - {m2}', f'\tMIX = READ + {k1} * 2', '', '',
+		f'def fn{i}(a: int, b: int, c: int) -> int:', '\tn = a * a + 1']
+	lines.append(f'\txs: list[int] = [{r.choice(["b", "c", "2"])}] * n' if r.random() < 0.7 else f'\txs = [{r.choice(["b", "c"])}] * n')
+	lines.append(f'\tys = [{r.choice(["a", "c", "7"])}] * {r.randint(2, 4)}')
+	lines.append('\ttotal = len(xs) + xs[0] + ys[1]')
+	lines += ['\tfor x in xs:', f'\t\ttotal += x {r.choice(["+", "*", "-"])} {r.choice(["1", "2", "b"])}']
+	mem = lambda: f'Perm{i}.{r.choice(["WRITE", "EXEC", "BASE", "MIX", "READ"])}.value'  # noqa: E731
+	lines.append(f'\ttotal += {mem()} {r.choice(["*", "+", "-"])} {r.choice(["2", "n", "c"])} {r.choice(["+", "-", "*"])} {mem()}')
+	lines.append(f'\ttotal -= {r.choice(["n", "3"])} * {mem()} - {mem()} * {r.choice(["2", "b"])}')
+	lines += [f'\tzs = [k * {r.choice(["2", "c"])} for k in range(n) if k % 2 == {r.choice(["0", "1"])}]', '\ttotal += len(zs)', '\tfor z in zs:', '\t\ttotal += z', '\treturn total']
+	return '\n'.join(lines) + '\n'
+
+
 def g_function(r, i):
 	kind = r.random()
 	if kind < 0.2:
 		return g_float_function(r, i)
+	if kind < 0.4:
+		return g_container_function(r, i)
 	lines = [f'def fn{i}(a: int, b: int, c: int) -> int:', '\tx = a', '\ty = b']
 	late = kind < 0.5
 	if late:
@@ -426,7 +445,7 @@ def main():
 				out['skipped'] += 1
 				continue
 			try:
-				c = transpile(f)[0]
+				c = '\n'.join(transpile(f))
 			except Exception as e:  # noqa: BLE001
 				out['fails'].append({'what': f'a program of the subset is rejected by the transpiler: {type(e).__name__}: {str(e)[:120]}', 'program': f})
 				continue
